@@ -25,6 +25,7 @@ LABELS = {
 }
 TEXT = ("A", "AB", "BA", None)       # None = the empty/missing cell
 TEXT3 = ("A", "AB", None)
+SPACES = ("A", "A ", " A", " ")          # cells that differ only by leading/trailing blanks are different cells
 INTS = (1, 11)
 NEGS = (-1, -2, 2)        # hash(-1) == hash(-2) in CPython
 FLOATS = (1000001.0, 1000002.0, 0.1234567, 0.1234568)    # differ only beyond 6 significant digits
@@ -47,11 +48,11 @@ def spaces(tier):
     def gen_tables():
         # (column types, max rows)
         plans = [(("t",), 4), (("i",), 4), (("t", "t"), 3), (("t", "i"), 3 if q else 4), (("i", "i"), 4), (("t3", "t3", "t3"), 2 if q else 3), (("t3", "i", "t3"), 2 if q else 3)]
-        plans += [(("n",), 3), (("n", "t3"), 2 if q else 3), (("n", "n"), 2 if q else 3), (("f",), 3), (("f", "t3"), 2), (("i", "f"), 2 if q else 3)]
+        plans += [(("n",), 3), (("n", "t3"), 2 if q else 3), (("n", "n"), 2 if q else 3), (("f",), 3), (("f", "t3"), 2), (("i", "f"), 2 if q else 3), (("w",), 3), (("w", "t3"), 2), (("w", "w"), 2)]
         if not q:
             plans += [(("t", "t"), 4), (("i", "i", "i", "i"), 3), (("t3", "t3", "i", "i"), 2)]
         for types, maxrows in plans:
-            alph = [TEXT if t == "t" else TEXT3 if t == "t3" else NEGS if t == "n" else FLOATS if t == "f" else INTS for t in types]
+            alph = [TEXT if t == "t" else TEXT3 if t == "t3" else NEGS if t == "n" else FLOATS if t == "f" else SPACES if t == "w" else INTS for t in types]
             rows = list(itertools.product(*alph))
             for n in range(2, maxrows + 1):
                 for table in itertools.product(rows, repeat=n):
@@ -107,7 +108,18 @@ def check_case(case, acc):
                 acc.fail("pc_n/container-or-zero-entries", ("pc_n", tuple(int(c) for c in counts_variant), type(counts_variant).__name__), exp, r)
             else:
                 acc.ok()
-        # two-sample form with the very same object on both sides: cross pairs include i == j
+        # two-sample form with the two samples spelled differently (list vs object Series, ints vs equal floats)
+        if N <= 5:
+            lab = [LABELS["str"](i) for i in t]
+            e2 = ref_pc2(t, t[::-1])
+            for a_, b_, tag in ((lab, pd.Series(lab[::-1], dtype=object), "list-vs-object-series"), (np.array(lab), lab[::-1], "array-vs-list"),
+                                ([int(i) for i in t], [float(i) for i in t[::-1]], "ints-vs-floats"), (pd.Series(lab), np.array(lab[::-1], dtype=object), "series-vs-object-array")):
+                r = acc.call(pyrepseq.pc, a_, b_)
+                if not _exact(r, e2):
+                    acc.fail("pc/two-sample/mixed-spelling", ("pc2", tuple(lab), tuple(lab[::-1])), e2, r, note=tag)
+                else:
+                    acc.ok()
+    # two-sample form with the very same object on both sides: cross pairs include i == j
         xs_same = np.array([LABELS["str"](i) for i in t])
         r = acc.call(pyrepseq.pc, xs_same, xs_same)
         e2 = ref_pc2(t, t)
@@ -188,6 +200,16 @@ def _mk(types, table, spell):
             vals = ["" if v is None else v for v in vals]
         elif spell == "nan":
             vals = [np.nan if v is None else v for v in vals]
+        elif spell == "none-and-nan":
+            # both spellings of 'missing' side by side in one object column: still one distinct empty value
+            k = [0]
+
+            def alt(v):
+                if v is not None:
+                    return v
+                k[0] += 1
+                return None if k[0] % 2 else np.nan
+            vals = np.array([alt(v) for v in vals], dtype=object)
         cols["c%d" % ci] = vals
     return pd.DataFrame(cols)
 
@@ -206,7 +228,7 @@ def _check_table(acc, case, spell=None):
         acc.cls("negative-int-cells")
     counts = [list(table).count(r) for r in set(table)]
     cols = ["c%d" % i for i in range(len(types))]
-    spells = (("none", "empty-string", "nan") if has_missing else ("none",)) if spell is None else (spell,)
+    spells = (("none", "empty-string", "nan", "none-and-nan") if has_missing else ("none",)) if spell is None else (spell,)
     for sp in spells:
         if has_missing:
             acc.cls("table-missing-cell")
